@@ -283,7 +283,43 @@ fn classify(c: &SchemaCase, reported: &[(String, DataType)], got: &[(String, Dat
     // planned as BIGINT but computed as INTEGER (or the reverse)
     if names(reported) == names(got) {
         let diff: Vec<(&DataType, &DataType)> = reported.iter().zip(got.iter()).filter(|(a, b)| a.1 != b.1).map(|(a, b)| (&a.1, &b.1)).collect();
-        if !diff.is_empty() && diff.iter().all(|(a, b)| matches!((a, b), (DataType::Int64, DataType::Int32) | (DataType::Int32, DataType::Int64))) {
+        // (only COMPUTED outputs: a plain column reference that comes back with another width
+        // than the base column's is a different defect and is not covered by this finding)
+        let plain_column_output = |name: &str| -> bool {
+            let n = name.to_uppercase();
+            let is_col = |t: &str| {
+                let bare = t.rsplit('.').next().unwrap_or(t);
+                c.tables.iter().any(|tb| tb.cols.iter().any(|col| col.name.to_uppercase() == bare))
+            };
+            // every ` AS <name>`: the select item is a plain column iff the text before it is
+            // `<SELECT|DISTINCT|,> <ident path naming a base column>`
+            let pat = format!(" AS {}", n);
+            let mut any_alias = false;
+            let mut aliased_plain = false;
+            for (i, _) in sql.match_indices(&pat) {
+                let after = sql[i + pat.len()..].chars().next();
+                if after.map(|ch| ch.is_alphanumeric() || ch == '_').unwrap_or(false) {
+                    continue;
+                }
+                any_alias = true;
+                let head = sql[..i].trim_end();
+                let start = head.rfind(|ch: char| !(ch.is_alphanumeric() || ch == '_' || ch == '.')).map(|p| p + 1).unwrap_or(0);
+                let tok = &head[start..];
+                let before = head[..start].trim_end();
+                let item_start = before.ends_with(',') || before.ends_with("SELECT") || before.ends_with("DISTINCT");
+                if !tok.is_empty() && is_col(tok) && item_start {
+                    aliased_plain = true;
+                }
+            }
+            aliased_plain || (!any_alias && is_col(&n))
+        };
+        let diff_names: Vec<&String> = reported.iter().zip(got.iter()).filter(|(a, b)| a.1 != b.1).map(|(a, _)| &a.0).collect();
+        if !diff.is_empty()
+            && diff.iter().all(|(a, b)| matches!((a, b), (DataType::Int64, DataType::Int32) | (DataType::Int32, DataType::Int64)))
+            // (a set operation's output column is computed from all branches: a plain column in one
+            // branch says nothing about the others)
+            && ([" UNION ", " INTERSECT ", " EXCEPT "].iter().any(|k| sql.contains(k)) || !diff_names.iter().any(|n| plain_column_output(n)))
+        {
             return Some("integer-width-plan-vs-batch");
         }
         // FULL OUTER JOIN NULL-extension rows are assembled with another column's type
